@@ -475,6 +475,99 @@ fn enumerate_small(t: Tier) -> Box<dyn Iterator<Item = Case>> {
     }))
 }
 
+
+// ---------------------------------------------------------------------------
+// large scale: sequences of 255..1100 symbols (matrices beyond 65536 cells), real k-mer backbones with
+// gaps, k up to 10, an earlier call of the same shape on the same aligner (other mode / entry point)
+
+pub mod large {
+    use super::*;
+
+    #[derive(Serialize, Deserialize, Debug, Clone)]
+    pub struct Case {
+        pub spec: ScoreSpec,
+        pub with_match_scores: bool,
+        pub k: usize,
+        pub w: usize,
+        pub entry: Entry,
+        pub m: usize,
+        pub n: usize,
+        pub content: u8,
+        pub seed: u64,
+        pub edits: u16,
+        /// an earlier call with sequences of the same lengths through this entry point
+        pub earlier: Option<Entry>,
+    }
+
+    pub fn check(c: &Case) -> R {
+        ensure!(c.m >= 1 && c.n >= 1 && c.m <= 1100 && c.n <= 1100 && c.k >= 1, "harness: case outside the large-scale domain");
+        let (x, y) = c01::large::gen_pair(c.seed, c.m, c.n, c.content, c.spec.sigma, c.edits);
+        let call = BCall { entry: c.entry.clone(), x: B(x), y: B(y) };
+        let mk = || Aligner::with_scoring(c.spec.scoring(c.with_match_scores), c.k, c.w);
+        let mut fresh = mk();
+        let r = check_call("fresh aligner (large):", &mut fresh, &call, &c.spec, c.k, c.w)?;
+        if let Some(e) = &c.earlier {
+            let (x0, y0) = c01::large::gen_pair(c.seed ^ 0x5eed, c.m, c.n, c.content, c.spec.sigma, c.edits);
+            let first = BCall { entry: e.clone(), x: B(x0), y: B(y0) };
+            let mut used = mk();
+            check_call("earlier call of the same shape (large):", &mut used, &first, &c.spec, c.k, c.w)?;
+            // the observed call on the used aligner is validated in full (not only compared): stale traceback
+            // cells show up as operations that do not re-score to the reported score
+            check_call("call after an earlier call of the same shape (large):", &mut used, &call, &c.spec, c.k, c.w)?;
+            let a_used = run_call(&mut used, &call, &c.spec, c.k).a;
+            let a_fresh = run_call(&mut mk(), &call, &c.spec, c.k).a;
+            ensure!(a_used == a_fresh, "banded result depends on the aligner's history (earlier {} with the same lengths {}x{}, k={} w={}): score {} / {} operations vs score {} / {} operations on a fresh aligner", e.label(), c.m, c.n, c.k, c.w, a_used.score, a_used.operations.len(), a_fresh.score, a_fresh.operations.len());
+        }
+        let partial = r.n_matches > 0 && !r.full_band;
+        let mut p = Pass::new(partial);
+        p.add(c.entry.label());
+        p.add_if(partial, "partial band");
+        p.add_if(partial && !r.exact, "banded score below the unbanded optimum");
+        p.add_if((c.m + 1) * (c.n + 1) >= 65536, "matrix of 65536 or more cells");
+        p.add_if((255..=257).contains(&c.m) || (255..=257).contains(&c.n), "a length in 255..257");
+        p.add_if((511..=513).contains(&c.m) || (511..=513).contains(&c.n), "a length in 511..513");
+        p.add_if((1023..=1025).contains(&c.m) || (1023..=1025).contains(&c.n), "a length in 1023..1025");
+        p.add_if(c.earlier.is_some(), "reuse with an earlier call of the same shape");
+        p.add_if(r.has_clip, "clipped end");
+        p.add_if(c.content > 0, "byte values beyond the letters");
+        Ok(p)
+    }
+
+    fn simple_entry() -> BoxedStrategy<Entry> {
+        prop_oneof![
+            4 => Just(Entry::Custom),
+            1 => Just(Entry::CustomPrehash),
+            1 => Just(Entry::Matches { mask: vec![true, true, false] }),
+            1 => Just(Entry::Expanded { mask: vec![], allowed_mismatches: Some(1), union: true }),
+            1 => Just(Entry::MatchPath { chain: Chain::Sdpkpp, from: 0, to: u16::MAX }),
+            2 => Just(Entry::Global),
+            2 => Just(Entry::Semiglobal),
+            1 => Just(Entry::SemiglobalPrehash),
+            2 => Just(Entry::Local),
+        ]
+        .boxed()
+    }
+
+    pub fn strat(_t: Tier) -> BoxedStrategy<Case> {
+        let len = || prop_oneof![4 => proptest::sample::select(vec![255usize, 256, 257]), 2 => proptest::sample::select(vec![511usize, 512, 513]), 1 => proptest::sample::select(vec![1023usize, 1024, 1025]), 3 => 258usize..=400, 1 => 60usize..=254];
+        (1u8..=4)
+            .prop_flat_map(move |sigma| {
+                (
+                    (c01::spec(sigma), any::<bool>(), prop_oneof![3 => 2usize..=5, 2 => 6usize..=10], prop_oneof![2 => Just(0usize), 3 => 1usize..=3, 2 => 4usize..=12]),
+                    simple_entry(),
+                    len(),
+                    len(),
+                    0u8..=2,
+                    any::<u64>(),
+                    prop_oneof![4 => 0u16..=12, 2 => 12u16..=60],
+                    proptest::option::weighted(0.5, simple_entry()),
+                )
+            })
+            .prop_map(|((spec, with_match_scores, k, w), entry, m, n, content, seed, edits, earlier)| Case { spec, with_match_scores, k, w, entry, m, n, content, seed, edits, earlier })
+            .boxed()
+    }
+}
+
 pub fn property() -> Property {
     Property {
         id: "C02",
@@ -497,6 +590,7 @@ pub fn property() -> Property {
                 must_reach: &["partial band", "full band (no match)", "w=0", "reuse", "entry custom_with_match_path", "entry custom_with_expanded_matches", "entry semiglobal_with_prehash", "banded score below the unbanded optimum", "match_scores: Some"],
                 watch: true,
             }),
+            Box::new(PropSub { name: "C02/large", quick: 1_600, thorough: 40_000, shards_quick: 16, shards_thorough: 16, strat: large::strat, check: large::check, must_reach: &["partial band", "matrix of 65536 or more cells", "a length in 255..257", "a length in 511..513", "a length in 1023..1025", "reuse with an earlier call of the same shape", "banded score below the unbanded optimum", "entry semiglobal", "entry custom", "entry local"], watch: true }),
             Box::new(ExhSub { name: "C02/exhaustive", enumerate: enumerate_small, check, must_reach: &["partial band", "full band (no match)", "w=0", "entry global", "entry semiglobal", "entry local"] }),
             Box::new(ExhSub { name: "C02/budget", enumerate: enumerate_budget, check: check_budget, must_reach: &["exactly 5,000,000 cells: aligned", "above 10,000,000 cells: sentinel"] }),
         ],
